@@ -78,12 +78,18 @@ class SockSimulation(protosim.ProtoSimulation):
                 setattr(fio, k, v)
             super().uninstall()
 
+    def spend(self, d: float):
+        before = sum(self.session.delivered.values())
+        self.sched.sleep(d)
+        if sum(self.session.delivered.values()) > before:
+            self.run.probe("delivery_during_search")
+
     def preempt(self, where: str):
         before = sum(self.session.delivered.values())
         n = self.sched.n_switches
         self.sched.yield_point()
         if len(self.io.receive) and self.sched.n_switches > n + 0:
-            self.run.probe("listener_ran_between_accessors", 0)
+            self.run.probe("listener_ran_between_accessors")
         if len(self.session.sim_history) > self.max_msgs:
             raise protosim.StopSession()
 
